@@ -89,7 +89,7 @@ func (cs *CacheScen) setup(l *tledger) (CacheLike, CState) {
 				t = sched.MaxThreads
 			}
 			l.per[t] = append(l.per[t], fmt.Sprintf("cb1:k%d=%d;", k, v))
-			if cs.CBReenter && c != nil {
+			if cs.CBReenter && c != nil && k != NKC-1 {
 				c.Get(k)
 				c.Set(NKC-1, 777, durNoExp)
 				c.Delete(NKC - 1)
@@ -152,6 +152,22 @@ func (r cacheRangeOut) String() string { return fmt.Sprint(r.Pairs) }
 
 func (cs *CacheScen) Scenario() *Scenario {
 	name := cs.name()
+	// two or more full-table passes lock every bucket in turn: the number of distinct lock orders is
+	// exponential in the table length, so these scenarios are explored preemption-bounded from the start
+	trav := 0
+	for _, ops := range cs.Threads {
+		for _, o := range ops {
+			if o.Op == CDeleteExpired || o.Op == CRange {
+				trav++
+			}
+		}
+	}
+	if cs.Table == TGrowArmed {
+		trav++
+	}
+	if trav >= 2 && cs.Bound == 0 {
+		cs.Bound = 2
+	}
 	sc := &Scenario{Name: name, Prop: cs.Prop, NoBlock: cs.NoBlock, MaxSteps: cs.MaxSteps, PreemptBound: cs.Bound, Classes: cs.Classes, ExpectOutcomes: cs.Expect}
 	var lc *linChecker
 	sc.New = func() *Instance {
